@@ -6,10 +6,48 @@ import vp_coq, options_cases as oc, subprocess, tempfile, shutil
 def gen(ctx, n):
     kinds = ["legal", "alias", "malformed", "short", "malformed", "alias"]
     cs = [oc.gen_case(ctx, "k%d" % i, kinds[i % len(kinds)]) for i in range(n)]
+    cs += boundary(ctx)
     for c in cs:
         for t in c.tags:
             ctx.count(t)
         ctx.count("cli-items", len(c.cli))
+    return cs
+
+
+def boundary(ctx):
+    """deterministic cases at the places the second wave's seeded changes showed to matter: every current option alone
+    on the command line and alone in the file (a wrong `&member` binding shows at once), a vector option in both
+    sources (command line replaces, never concatenates), every legacy / ignored name on the command line (file only)"""
+    inf = oc.info()
+    tab = inf["table"]
+    cs = []
+    canon = [o for o in tab.values() if o["kind"] == "KCanon" and o["ty"] != "TFlag" and o["name"] != inf["cfgopt"]]
+    for k, o in enumerate(sorted(canon, key=lambda o: o["name"])):
+        pool = oc.LEGAL[o["ty"]]
+        t = pool[(k % (len(pool) - 1)) + 1]
+        if o["cli"]:
+            c = oc.OptCase("bc%d" % k)
+            c.cli.append(dict(kind="L", name=o["name"], toks=[t], opt=o["name"]))
+            c.tags.add("one-option-cli")
+            cs.append(c)
+        if o["file"]:
+            c = oc.OptCase("bf%d" % k)
+            c.cfg = dict(file="run.cfg", state="file", items=[(o["name"], [t])])
+            c.cli.append(dict(kind="L", name="config", toks=["run.cfg"], opt=inf["cfgopt"]))
+            c.tags.add("one-option-file")
+            cs.append(c)
+    for k, o in enumerate(o for o in canon if o["ty"] == "TVecFloat"):
+        c = oc.OptCase("bv%d" % k)
+        c.cli.append(dict(kind="L", name=o["name"], toks=["0.5"], opt=o["name"]))
+        c.cfg = dict(file="run.cfg", state="file", items=[(o["name"], ["1", "2"])])
+        c.cli.append(dict(kind="L", name="config", toks=["run.cfg"], opt=inf["cfgopt"]))
+        c.tags.add("vector-both-sources")
+        cs.append(c)
+    for k, o in enumerate(sorted((o for o in tab.values() if o["kind"] in ("KAlias", "KIgnored")), key=lambda o: o["name"])):
+        c = oc.OptCase("ba%d" % k)
+        c.cli.append(dict(kind="L", name=o["name"], toks=[oc.LEGAL[o["ty"]][1]], opt=None))
+        c.tags.add("inj:alias-cli")
+        cs.append(c)
     return cs
 
 
@@ -27,6 +65,7 @@ def program_level(ctx, tg, n):
         cases = [(["--GridSize", "abc"], "fail"), (["--NoSuchOption", "1"], "fail"), (["-s", "32", "-s", "32"], "fail"),
                  (["--config", "bad.cfg"], "fail"), (["--config", "unk.cfg"], "fail"), (["--config", "rep.cfg"], "fail"),
                  (["--RFVoltage", "1"], "fail"), (["--config", "nosuch.cfg"], "stop"), (["--alpha", "1"], "fail"),
+                 (["--GridSize", "32", "T", "10"], "fail"), (["-s", "-5"], "fail"),
                  (["--help"], "stop"), (["--version"], "stop")]
         rng.shuffle(cases)
         for av, exp in cases[:n]:
@@ -49,7 +88,9 @@ def run(ctx, cases=None):
     ctx.rule = ("option cases: random subsets of all option names on the command line (long, one-letter, abbreviated, --n=v) and/or in a "
                 "config file or ./default.cfg (current names, legacy aliases, ignored options), legal tokens per type incl. 7-17 digit "
                 "values; malformed stream: unknown names, aliases on the command line, `config` in a file, bad numbers, repeated scalars, "
-                "ambiguous abbreviations, missing file, information switches, stray words, negative values for unsigned options. "
+                "ambiguous abbreviations, missing file, information switches, stray words, negative values for unsigned options; "
+                "boundary stream: every current option alone on the command line / alone in the file, vector option in both sources, "
+                "every legacy and ignored name on the command line; the defaults documented by --help against the getters of `inovesa`. "
                 "Compared: status and every bound member (through its getter) model vs implementation, saved file, reload. "
                 "Non-trivial: at least one option given.")
     coq = vp_coq.full_check("C20", ctx, fams=("options",))
@@ -70,7 +111,8 @@ def run(ctx, cases=None):
         ctx.sample(cs[0].replay())
         ctx.sample(cs[1].replay())
     if cases is None:
-        program_level(ctx, tg, 6 if ctx.quick() else 11)
+        program_level(ctx, tg, 7 if ctx.quick() else 13)
+        oc.oracle_doc_defaults(ctx, tg)
     ctx.extra["correspondence_disagreements"] = len(dis)
     ctx.assumptions += ["boost::program_options' lexer and lexical_cast are glue: the split of argv into option occurrences and the "
                         "well-formedness/value of a token for a C++ type are supplied by the harness (lib/options_cases.py) and validated by the correspondence",
